@@ -26,20 +26,35 @@ theorem count_eq_open_refs (ops : List Op) (r : Nat) :
   (reachable_inv ops).cnt r
 
 /-- A temp file is open exactly while it is the arena's entry for its digest: the file is
-    closed in the same critical section that forgets the key, and never reopened. -/
-theorem file_open_iff (ops : List Op) (r : Nat) :
+    closed in the same critical section that forgets the key, and never reopened.  (For
+    histories without `RemoteFetchArena.Close`; see `file_open_after_arena_close`.) -/
+theorem file_open_iff (ops : List Op) (hn : ∀ op ∈ ops, op ≠ .aclose) (r : Nat) :
     ((Sm.run step init ops).rc r).fileOpen = true ↔
-      (Sm.run step init ops).arena ((Sm.run step init ops).rc r).key = some r :=
-  ⟨(reachable_inv ops).openIn r, fun h => ((reachable_inv ops).arenaOk _ r h).2.2⟩
+      (Sm.run step init ops).arena ((Sm.run step init ops).rc r).key = some r := by
+  refine ⟨fun h => ?_, fun h => ((reachable_inv ops).arenaOk _ r h).2.2⟩
+  rcases (reachable_inv ops).openIn r h with ha | hd
+  · exact ha
+  · rw [no_aclose_no_detached ops hn r] at hd; cases hd
+
+/-- With `RemoteFetchArena.Close` in the history: an entry is an open file, and an open file
+    is an entry or was open when the arena was Closed (its holders keep it, see `reader_safe`). -/
+theorem file_open_after_arena_close (ops : List Op) (r : Nat) :
+    ((Sm.run step init ops).arena ((Sm.run step init ops).rc r).key = some r →
+      ((Sm.run step init ops).rc r).fileOpen = true) ∧
+    (((Sm.run step init ops).rc r).fileOpen = true →
+      (Sm.run step init ops).arena ((Sm.run step init ops).rc r).key = some r ∨
+        (Sm.run step init ops).detached r = true) :=
+  ⟨fun h => ((reachable_inv ops).arenaOk _ r h).2.2, (reachable_inv ops).openIn r⟩
 
 /-- Reader safety: a user that went through `Val` (it has its private descriptor) reads a
-    file that is open, referenced at least once, and still the arena's entry of the digest. -/
+    file that is open, referenced at least once, and still the arena's entry of the digest
+    (or the whole arena was Closed while the file was open). -/
 theorem reader_safe (ops : List Op) (t k r : Nat)
     (h : (Sm.run step init ops).tasks[t]? = some (.holding k r) ∨
          (Sm.run step init ops).tasks[t]? = some (.opened k r)) :
     ((Sm.run step init ops).rc r).fileOpen = true ∧ 1 ≤ ((Sm.run step init ops).rc r).count ∧
-      (Sm.run step init ops).arena k = some r :=
-  holder_facts (reachable_inv ops) h
+      ((Sm.run step init ops).arena k = some r ∨ (Sm.run step init ops).detached r = true) :=
+  holder_facts' (reachable_inv ops) h
 
 /-- What a holder reads is a file that was fetched for the digest it asked for (a file is
     only stored after `fnet` succeeded, i.e. after the checksum of the received bytes matched). -/
@@ -85,7 +100,7 @@ theorem close_keeps_other_readers (ops : List Op) (t t' k r : Nat) (hne : t' ≠
   have ht' : s'.tasks[t']? = some (.holding k r) := by
     rw [close_frame _ t t' hne]; exact h
   have hinv : Inv s' := inv_step (reachable_inv ops) (.close t)
-  have := holder_facts hinv (Or.inl ht')
+  have := holder_facts' hinv (Or.inl ht')
   exact ⟨ht', this.1, this.2.1⟩
 
 /-- `Close` of a handle never hits "close botch: count already 0". -/
@@ -105,11 +120,12 @@ theorem double_store_unreachable (ops : List Op) (k : Nat) :
     the server sees no request for `k`, and the user keeps holding. -/
 theorem at_most_one_download_per_use_period (pre post : List Op) (t k r : Nat)
     (h : (Sm.run step init pre).tasks[t]? = some (.holding k r))
-    (hpost : ∀ op ∈ post, op ≠ .close t) :
+    (hd : (Sm.run step init pre).detached r = false)
+    (hpost : ∀ op ∈ post, op ≠ .close t ∧ op ≠ .aclose) :
     (Sm.run step init (pre ++ post)).tasks[t]? = some (.holding k r) ∧
       (Sm.run step init (pre ++ post)).hits k = (Sm.run step init pre).hits k := by
   rw [Sm.run_append]
-  exact held_run post (Sm.run step init pre) (reachable_inv pre) h hpost
+  exact held_run post (Sm.run step init pre) (reachable_inv pre) h hd hpost
 
 /-- The statement above is false of the code before the fix: B and A share a flight; B closes
     before A takes its reference; A gets errStale and downloads again (2nd request, legitimate);
